@@ -36,7 +36,7 @@ function load(path) {
   let mod;
   try {
     const f = new Function('HookNext', 'HookRec', 'console',
-      js + '\n;return {Parser: Parser, initialize: initialize, translate: translate, StateActionArray: StateActionArray, ERROR_ACTION: ERROR_ACTION, ACCEPT_ACTION: ACCEPT_ACTION, VConsts: (typeof VConsts === "function" ? VConsts : null)};');
+      js + '\n;return {Parser: Parser, initialize: initialize, translate: (typeof translate === "function" ? translate : null), StateActionArray: (typeof StateActionArray !== "undefined" ? StateActionArray : null), ERROR_ACTION: (typeof ERROR_ACTION !== "undefined" ? ERROR_ACTION : null), ACCEPT_ACTION: (typeof ACCEPT_ACTION !== "undefined" ? ACCEPT_ACTION : null), VConsts: (typeof VConsts === "function" ? VConsts : null)};');
     mod = f(hookNext, hookRec, fakeConsole);
   } catch (err) {
     return { loadError: String(err && err.stack || err).slice(0, 1500) };
@@ -104,7 +104,9 @@ function main() {
         r.matrix.push(row);
       }
     } else if (j.k === 'translate') {
-      r.trans = (j.codes || []).map(c => mod.translate(c));
+      // translate is a private helper of the generated file: a tree may name it differently
+      if (mod.translate) r.trans = (j.codes || []).map(c => mod.translate(c));
+      else { r.trans = []; r.trans_missing = true; }
       if (mod.VConsts) { try { r.consts = mod.VConsts(); } catch (e) { r.consts_err = String(e && e.message || e); r.consts = {}; } }
     } else {
       r.err = 'job kind not supported for typescript: ' + j.k;
